@@ -360,6 +360,13 @@ def write_evidence(ctx: Ctx, violations: int, known_hits: list[str]) -> None:
         json.dump(evidence, f, indent=1, sort_keys=True)
         f.write('\n')
     os.replace(path + '.tmp', path)
+    if ctx.tier == 'thorough' and not os.environ.get('VERIF_NO_EVIDENCE'):
+        # the last thorough run is kept beside the per-change (quick) evidence, which the next quick run overwrites
+        tdir = os.path.join(edir, 'thorough')
+        os.makedirs(tdir, exist_ok=True)
+        with open(os.path.join(tdir, f'{ctx.prop}.json'), 'w') as f:
+            json.dump(evidence, f, indent=1, sort_keys=True)
+            f.write('\n')
 
 
 def _list_paths(case, prefix=()):
